@@ -350,6 +350,16 @@ def check_text_values():
             continue
         if not ok:
             out.append(('text-meta/value', 'copy / freeze / thaw of a lyrics message with text %r are not value copies' % (text,)))
+    # frozen messages are hashable whatever legal thing was assigned before freezing
+    try:
+        um = mido.UnknownMetaMessage(0x60, data=(1,))
+        um.data = [4, 5, 6]                       # (this class checks nothing: a list stays a list)
+        f = freeze_message(um)
+        g = freeze_message(um.copy())
+        if hash(f) != hash(g) or {f: 1}[g] != 1 or len({f, g}) != 1 or not (thaw_message(f) == um):
+            out.append(('unknown-meta/list-data/hash', 'frozen unknown meta messages with list data: equal but not usable as keys'))
+    except Exception as e:
+        out.append(('unknown-meta/list-data/raises/%s' % type(e).__name__, 'freeze / hash of an unknown meta message with list data: %r' % (e,)))
     return out[:3]
 
 
